@@ -28,6 +28,12 @@ Proof.
   destruct (f a); [constructor; [rewrite filter_In; tauto | exact IH] | exact IH].
 Qed.
 
+Lemma In_firstn {A} (x : A) n l : In x (firstn n l) -> In x l.
+Proof.
+  revert l; induction n as [|n IH]; intros l; cbn; [intros []|].
+  destruct l as [|a l]; [intros [] | intros [H|H]; [left; exact H | right; apply IH; exact H]].
+Qed.
+
 Lemma NoDup_snoc {A} (l : list A) k : NoDup l -> ~ In k l -> NoDup (l ++ [k]).
 Proof.
   induction 1 as [|a l Ha Hl IH]; cbn; intros Hk.
@@ -530,3 +536,191 @@ Proof.
   destruct (str_eqb (tp t) tau) eqn:Etau; cbn [andb]; [|apply IH; exact Hok'].
   rewrite (Hok t (or_introl eq_refl)) by (apply str_eqb_eq; exact Etau). cbn. apply IH; exact Hok'.
 Qed.
+
+(** ** [track] *)
+
+Definition st0 : capst := {| cc := []; completed := 0 |}.
+
+Definition nt_of (m : tmode) : option nat :=
+  match m with TClasses l => Some (List.length l) | TAll => None end.
+
+Lemma nt_ok_init m cap : nt_ok m cap (nt_of m) st0.
+Proof.
+  destruct m as [|l]; cbn; [constructor|].
+  exists l. split; [reflexivity|]. split; [reflexivity|].
+  exists []. cbn. split; [constructor|]. split; [reflexivity | intros c []].
+Qed.
+
+Lemma track_pos tau m k g : (0 < k)%Z ->
+  track tau m k g = track_cap tau m (Z.to_nat k) (nt_of m) g [] st0.
+Proof. intros H. unfold track. destruct (Z.leb_spec k 0); [lia | reflexivity]. Qed.
+
+Lemma track_nonpos tau m k g : (k <= 0)%Z -> track tau m k g = track_plain tau m g [].
+Proof. intros H. unfold track. destruct (Z.leb_spec k 0); [reflexivity | lia]. Qed.
+
+(** the memberships the cap keeps, as the Spec states them *)
+Definition kept (tau : str) (sc : scope) (k : nat) (g : graph) (mm : str * str) : bool :=
+  mem_str (fst mm) (first_k_instances tau sc k g (snd mm)).
+
+Lemma cap_filter_kept tau sc k g : NoDup (memberships tau sc g) ->
+  cap_filter k (fun _ => 0) (memberships tau sc g) = filter (kept tau sc k g) (memberships tau sc g).
+Proof.
+  intros Hnd. rewrite cap_filter_firstn by exact Hnd. apply filter_ext. intros mm.
+  unfold kept. rewrite first_k_NoDup by exact Hnd. rewrite Nat.sub_0_r. reflexivity.
+Qed.
+
+Lemma getc_st0 x : getc (cc st0) x = 0.
+Proof. reflexivity. Qed.
+
+(** (cap1, core) with a cap the tracker returns the dictionary of the kept memberships *)
+Lemma track_cap_is_build tau m k g I : (0 < k)%Z -> NoDup (memberships tau (scope_of m) g) ->
+  track tau m k g = inl I ->
+  I = build (filter (kept tau (scope_of m) (Z.to_nat k) g) (memberships tau (scope_of m) g)) [].
+Proof.
+  intros Hk Hnd H. rewrite track_pos in H by exact Hk.
+  apply track_cap_char in H; [|lia | apply nt_ok_init].
+  rewrite (cap_filter_ext _ _ _ (fun _ => 0)) in H by (intros x; reflexivity).
+  rewrite cap_filter_kept in H by exact Hnd. exact H.
+Qed.
+
+Lemma In_kept_filter tau sc k g i c : NoDup (memberships tau sc g) ->
+  In (i, c) (filter (kept tau sc k g) (memberships tau sc g)) <-> In i (first_k_instances tau sc k g c).
+Proof.
+  intros Hnd. rewrite filter_In. unfold kept. cbn [fst snd]. rewrite mem_str_In. split; [tauto|].
+  intros H. split; [|exact H]. rewrite first_k_NoDup in H by exact Hnd.
+  apply In_firstn in H. unfold class_subjects, subjects_of in H. apply in_map_iff in H.
+  destruct H as [[i' c'] [H1 H2]]. cbn in H1. subst i'. apply filter_In in H2. cbn in H2.
+  destruct H2 as [H2 H3]. apply str_eqb_eq in H3. subst c'. exact H2.
+Qed.
+
+Lemma firstn_NoDup {A} n (l : list A) : NoDup l -> NoDup (firstn n l).
+Proof.
+  revert l; induction n as [|n IH]; intros l H; cbn; [constructor|].
+  destruct l as [|a l]; [constructor|]. inversion H; subst. constructor; [|apply IH; assumption].
+  intros Hin. apply In_firstn in Hin. contradiction.
+Qed.
+
+(** (cap1) the instances listed for every class are exactly its first k *)
+Lemma cap_firstn tau m k g I : (0 < k)%Z -> NoDup (memberships tau (scope_of m) g) ->
+  track tau m k g = inl I ->
+  forall c,
+    (forall i, In c (cls I i) <-> In i (first_k_instances tau (scope_of m) (Z.to_nat k) g c)) /\
+    Permutation (inst_of I c) (first_k_instances tau (scope_of m) (Z.to_nat k) g c) /\
+    List.length (inst_of I c) = Nat.min (Z.to_nat k) (List.length (class_subjects tau (scope_of m) g c)).
+Proof.
+  intros Hk Hnd H c. pose proof (track_cap_is_build _ _ _ _ _ Hk Hnd H) as HI.
+  assert (Hkeys : NoDup (dkeys I)) by (rewrite HI; apply NoDup_keys_build; constructor).
+  assert (Hmem : forall i, In c (cls I i) <-> In i (first_k_instances tau (scope_of m) (Z.to_nat k) g c)).
+  { intros i. rewrite HI at 1. rewrite cls_build_In. apply In_kept_filter. exact Hnd. }
+  assert (Hperm : Permutation (inst_of I c) (first_k_instances tau (scope_of m) (Z.to_nat k) g c)).
+  { apply NoDup_Permutation.
+    - apply NoDup_inst_of. exact Hkeys.
+    - rewrite first_k_NoDup by exact Hnd. apply firstn_NoDup. apply NoDup_subjects_of. exact Hnd.
+    - intros i. rewrite inst_of_In by exact Hkeys. apply Hmem. }
+  split; [exact Hmem|]. split; [exact Hperm|].
+  rewrite (Permutation_length Hperm). rewrite first_k_NoDup by exact Hnd. apply firstn_length.
+Qed.
+
+(** (cap2) cap k on the document = no cap on the restricted document *)
+Lemma cap_is_restriction tau m k g z : (0 < k)%Z -> (z <= 0)%Z ->
+  NoDup (memberships tau (scope_of m) g) -> tau_ok tau g ->
+  track tau m k g = track tau m z (restrict_typing tau (scope_of m) (Z.to_nat k) g).
+Proof.
+  intros Hk Hz Hnd Hok.
+  assert (Hok' : tau_ok tau (restrict_typing tau (scope_of m) (Z.to_nat k) g)).
+  { intros t Ht. apply filter_In in Ht. apply Hok. tauto. }
+  rewrite (track_nonpos _ _ z) by exact Hz.
+  destruct (track_plain_total tau m _ [] Hok') as [I2 H2].
+  assert (H1' : exists I1, track tau m k g = inl I1).
+  { rewrite track_pos by exact Hk. apply track_cap_total; [lia | exact Hok]. }
+  destruct H1' as [I1 H1]. rewrite H1, H2. f_equal.
+  apply track_cap_is_build in H1; [|exact Hk | exact Hnd].
+  apply track_plain_char in H2. rewrite H1, H2. f_equal.
+  unfold restrict_typing, keep_typing. symmetry.
+  apply (memberships_filter tau (scope_of m) (kept tau (scope_of m) (Z.to_nat k) g)).
+Qed.
+
+(** (cap3) a cap not smaller than any class changes nothing (no NoDup needed) *)
+Lemma cap_large_id tau m k g z : (0 < k)%Z -> (z <= 0)%Z -> tau_ok tau g ->
+  (forall c, List.length (class_subjects tau (scope_of m) g c) <= Z.to_nat k) ->
+  track tau m k g = track tau m z g.
+Proof.
+  intros Hk Hz Hok Hbig. rewrite (track_nonpos _ _ z) by exact Hz.
+  destruct (track_plain_total tau m g [] Hok) as [I2 H2].
+  assert (H1' : exists I1, track tau m k g = inl I1).
+  { rewrite track_pos by exact Hk. apply track_cap_total; [lia | exact Hok]. }
+  destruct H1' as [I1 H1]. rewrite H1, H2. f_equal.
+  rewrite track_pos in H1 by exact Hk. apply track_cap_char in H1; [|lia | apply nt_ok_init].
+  apply track_plain_char in H2. rewrite H1, H2. f_equal.
+  apply cap_filter_id. intros c. rewrite getc_st0. apply Hbig.
+Qed.
+
+(** (cap3, one direction with no hypothesis on literals): a normal result under a large cap is the uncapped result *)
+Lemma cap_large_id_sound tau m k g z I : (0 < k)%Z -> (z <= 0)%Z ->
+  (forall c, List.length (class_subjects tau (scope_of m) g c) <= Z.to_nat k) ->
+  track tau m z g = inl I -> track tau m k g = inl I \/ exists e, track tau m k g = inr e.
+Proof.
+  intros Hk Hz Hbig H2. destruct (track tau m k g) as [I1|e] eqn:H1; [left | right; eauto].
+  f_equal. rewrite track_pos in H1 by exact Hk. apply track_cap_char in H1; [|lia | apply nt_ok_init].
+  rewrite track_nonpos in H2 by exact Hz. apply track_plain_char in H2. rewrite H1, H2. f_equal.
+  apply cap_filter_id. intros c. rewrite getc_st0. apply Hbig.
+Qed.
+
+(** the two target modes: early stop or not, same result *)
+Lemma cap_stop_irrelevant tau l k g : (0 < k)%Z -> tau_ok tau g ->
+  track tau (TClasses l) k g = track_cap tau (TClasses l) (Z.to_nat k) None g [] st0.
+Proof. intros Hk Hok. rewrite track_pos by exact Hk. apply track_cap_stop_eq; [lia | exact Hok]. Qed.
+
+(** ** composition with the rest of the pipeline *)
+
+Definition with_cap (c : rcfg) (z : Z) : rcfg :=
+  {| r_tau := r_tau c; r_targets := r_targets c; r_ns := r_ns c; r_shapes_ns := r_shapes_ns c; r_cap := z;
+     r_inverse := r_inverse c; r_remove_empty := r_remove_empty c; r_discard_useless := r_discard_useless c;
+     r_keep_less_specific := r_keep_less_specific c; r_all_compliant := r_all_compliant c;
+     r_disable_or := r_disable_or c; r_allow_redundant_or := r_allow_redundant_or c; r_allow_opt := r_allow_opt c;
+     r_disable_exact := r_disable_exact c; r_disable_comments := r_disable_comments c; r_mode := r_mode c |}.
+
+Definition mode_of_cfg (c : rcfg) : tmode :=
+  match r_targets c with Some l => TClasses l | None => TAll end.
+
+Lemma scope_of_mode_of_cfg c : scope_of (mode_of_cfg c) = r_targets c.
+Proof. unfold mode_of_cfg. destruct (r_targets c); reflexivity. Qed.
+
+Section RunComp.
+  Variable fa : FreqAlg.
+
+  Lemma run_shapes_is_run_shapes2 c thr g : run_shapes fa c thr g = run_shapes2 fa c thr g g.
+  Proof. reflexivity. Qed.
+
+  Lemma run_shexc_is_run_shexc2 c thr g : run_shexc fa c thr g = run_shexc2 fa c thr g g.
+  Proof. reflexivity. Qed.
+
+  (** only the tracker looks at [r_cap] and only the tracker reads [g_inst] *)
+  Lemma run_shexc2_track c c' thr gi gi' gf :
+    c' = with_cap c (r_cap c') ->
+    track (r_tau c) (mode_of_cfg c) (r_cap c) gi = track (r_tau c') (mode_of_cfg c') (r_cap c') gi' ->
+    run_shexc2 fa c thr gi gf = run_shexc2 fa c' thr gi' gf.
+  Proof.
+    intros Hc Ht. unfold run_shexc2, run_shapes2. unfold mode_of_cfg in Ht. rewrite Ht.
+    rewrite Hc. destruct c; reflexivity.
+  Qed.
+
+  Lemma run_cap_is_restriction c thr g z : (0 < r_cap c)%Z -> (z <= 0)%Z ->
+    NoDup (memberships (r_tau c) (r_targets c) g) -> tau_ok (r_tau c) g ->
+    run_shexc fa c thr g =
+    run_shexc2 fa (with_cap c z) thr (restrict_typing (r_tau c) (r_targets c) (Z.to_nat (r_cap c)) g) g.
+  Proof.
+    intros Hk Hz Hnd Hok. rewrite run_shexc_is_run_shexc2. apply run_shexc2_track; [reflexivity|].
+    cbn [with_cap r_cap r_tau]. replace (mode_of_cfg (with_cap c z)) with (mode_of_cfg c) by reflexivity.
+    rewrite <- (scope_of_mode_of_cfg c) in *. apply cap_is_restriction; assumption.
+  Qed.
+
+  Lemma run_cap_large_id c thr g z : (0 < r_cap c)%Z -> (z <= 0)%Z -> tau_ok (r_tau c) g ->
+    (forall x, List.length (class_subjects (r_tau c) (r_targets c) g x) <= Z.to_nat (r_cap c)) ->
+    run_shexc fa c thr g = run_shexc fa (with_cap c z) thr g.
+  Proof.
+    intros Hk Hz Hok Hbig. rewrite !run_shexc_is_run_shexc2. apply run_shexc2_track; [reflexivity|].
+    cbn [with_cap r_cap r_tau]. replace (mode_of_cfg (with_cap c z)) with (mode_of_cfg c) by reflexivity.
+    rewrite <- (scope_of_mode_of_cfg c) in *. apply cap_large_id; assumption.
+  Qed.
+End RunComp.
